@@ -54,7 +54,7 @@ func kinds() []blk.Kind {
 }
 
 func points(k blk.Kind) []string {
-	p := []string{"before-arrival", "after-failed-attempt-1", "after-failed-attempt-2", "asleep", "loser-retry", "inner-released-then-pause", "parallel-releases"}
+	p := []string{"before-arrival", "after-failed-attempt-1", "after-failed-attempt-2", "asleep", "loser-retry", "inner-released-then-pause", "parallel-releases", "second-release-at-refused-handoff"}
 	if k.Family == "queue" {
 		p = append(p, "queue.before_push", "queue.after_push")
 		if k.Evict {
@@ -72,7 +72,7 @@ func grid() []scenario {
 		for _, p := range points(k) {
 			for cap := 1; cap <= 2; cap++ {
 				for nw := 1; nw <= 3; nw++ {
-					if ((p == "loser-retry" || p == "parallel-releases") && (cap < 2 || nw < 2)) || ((strings.HasPrefix(p, "handoff") || strings.HasPrefix(p, "next-in-line")) && nw < 2) {
+					if ((p == "loser-retry" || p == "parallel-releases" || p == "second-release-at-refused-handoff") && (cap < 2 || nw < 2)) || ((strings.HasPrefix(p, "handoff") || strings.HasPrefix(p, "next-in-line")) && nw < 2) {
 						continue
 					}
 					for _, o := range outcomes {
@@ -136,6 +136,12 @@ func run(t *testing.T, sc scenario, r *rand.Rand) outcomeT {
 				// an attempt on behalf of a waiter made by another goroutine = hand-off attempt of unblock
 				if e.OK && e.Caller >= 0 && e.Caller < 900 {
 					handoffTarget.Store(int64(e.Caller))
+				}
+				if sc.Point == "second-release-at-refused-handoff" && !e.OK && armed.Load() && reached.CompareAndSwap(false, true) {
+					// a release is inside its hand-off and the delegate has just said no (an implementation that serves several
+					// waiters per release ends that way): the next holder completes right now, in another goroutine
+					fin := w.Actor.Do(func() { releaseNext() }, sc.Yields)
+					w.Tracef("hand-off attempt refused; second release finished within the pause: %v", fin)
 				}
 				if sc.Point == "parallel-releases" && armed.Load() {
 					// a slow delegate: the hand-off attempts of holders completing at the same moment overlap if the limiter lets them
@@ -221,7 +227,7 @@ func run(t *testing.T, sc scenario, r *rand.Rand) outcomeT {
 		}
 		for i := 0; i < sc.Waiters; i++ {
 			w.Spawn()
-			if sc.Point == "asleep" || sc.Point == "loser-retry" || sc.Point == "parallel-releases" || strings.HasPrefix(sc.Point, "handoff") || strings.HasPrefix(sc.Point, "next-in-line") {
+			if sc.Point == "asleep" || sc.Point == "loser-retry" || sc.Point == "parallel-releases" || sc.Point == "second-release-at-refused-handoff" || strings.HasPrefix(sc.Point, "handoff") || strings.HasPrefix(sc.Point, "next-in-line") {
 				w.Quiesce() // arrival order is a fact
 				if sc.Point == "handoff-vs-timeout" {
 					time.Sleep(time.Millisecond)
@@ -238,6 +244,11 @@ func run(t *testing.T, sc scenario, r *rand.Rand) outcomeT {
 			armed.Store(true)
 			releaseNext()
 			snap("after-release-with-loser-retry")
+		case "second-release-at-refused-handoff":
+			armed.Store(true)
+			releaseNext()
+			snap("after-release-whose-hand-off-loop-met-a-refusal")
+			armed.Store(false)
 		case "parallel-releases":
 			// every holder completes at the same moment, each from its own goroutine
 			armed.Store(true)
